@@ -2003,6 +2003,10 @@ def _quantified(I, name, x):
         return v
     if isinstance(v, I_.Pred):
         return I_.Pred(alg.fn("%s:%s0" % (name, v.op), v.e), "!=")
+    if isinstance(v, Expr):
+        if v.is_zero():
+            return False
+        return I_.Pred(alg.fn("%s:!=0" % name, v), "!=")  # truth of a number is `!= 0`
     return None
 
 
